@@ -1,3 +1,4 @@
 SPECIFICATION Spec
 INVARIANT AsBuiltHolds
 CHECK_DEADLOCK FALSE
+CONSTANT KeyMergesWsIntoHttp = FALSE
